@@ -118,6 +118,8 @@ def is_gamma(tb: TermBuilder, k: str) -> bool:
 
 # ------------------------------------------------------------------------------------------------ rules
 def run(ck: Check, repo: Repo) -> None:
+    from ._c08_r3 import run_r3, run_r3_first
+    run_r3_first(ck, repo)  # nested C18 check first (it resets the per-run pattern environments)
     ck.not_decided += [
         "the numeric value of the loss; equality of target weights after n learn steps (runtime values)",
         "Rainbow: that the projected distribution term is unaffected by next_obs when done (needs sum p = 1; see C18)",
@@ -142,6 +144,7 @@ def run(ck: Check, repo: Repo) -> None:
                      "load_state_dict of an online network's state) is a deep copy, never a view of the online network — otherwise every optimizer step of the online "
                      "network moves the target by the full step and the soft update has nothing left to do")
     _targets_owned(ck, repo)
+    run_r3(ck, repo)
     n_loss = 0
     n_soft = 0
     for modname, cname in VALUE_BASED:
@@ -345,11 +348,45 @@ def _rainbow_target(ck: Check, repo: Repo, reg: AlgoRegistry) -> int:
 
 
 # ------------------------------------------------------------------------------------------------ soft update
+def _through_temps(cfg: CFG, at, e: ast.AST, limit: int = 6):
+    """(expression, CFG node where it is evaluated) that `e` stands for at node `at`: a local name is replaced by the expression it was bound to for
+    as long as exactly one plain binding reaches — a value handed over directly and the same value handed over through a single-definition temporary
+    are one program to the rules.  Parameters, loop variables and names with several reaching definitions are left as they are."""
+    cur = e
+    for _ in range(limit):
+        if not isinstance(cur, ast.Name) or at is None:
+            break
+        defs = cfg.defs_reaching(at, cur.id)
+        if len(defs) != 1 or defs[0].kind != "stmt" or defs[0] is at:
+            break
+        v = cfg.value_of_def(defs[0], cur.id)
+        if v is None:
+            break
+        cur, at = v, defs[0]
+    return cur, at
+
+
+def _zip_of(cfg: CFG, loop: ast.For) -> Optional[Tuple[ast.Call, object]]:
+    """The `zip(...)` call a loop iterates (written in the loop header or bound to a local first) and the node at which it is evaluated."""
+    it, at = _through_temps(cfg, cfg.node_of(loop.iter), loop.iter)
+    if isinstance(it, ast.Call) and call_name(it) == "zip":
+        return it, at
+    return None
+
+
 def _find_soft_update(cls: Cls) -> List[Tuple[Fn, ast.For, ast.Call]]:
     out = []
     for m in cls.methods.values():
+        cfg: Optional[CFG] = None
         for n in walk_no_nested(m.node):
-            if isinstance(n, ast.For) and isinstance(n.iter, ast.Call) and call_name(n.iter) == "zip":
+            if not isinstance(n, ast.For):
+                continue
+            if isinstance(n.iter, ast.Name):
+                cfg = cfg or CFG(m.node)
+                is_zip = _zip_of(cfg, n) is not None
+            else:
+                is_zip = isinstance(n.iter, ast.Call) and call_name(n.iter) == "zip"
+            if is_zip:
                 for c in calls_in(n):
                     if last_attr(c) in ("copy_", "lerp_", "mul_", "add_") and isinstance(c.func, ast.Attribute):
                         out.append((m, n, c))
@@ -423,18 +460,26 @@ def _soft_update(ck: Check, repo: Repo, reg: AlgoRegistry) -> int:
     for fn, loop, write in found:
         tb = TermBuilder(repo, fn, depth=0)
         wnode = tb.cfg.node_of(write)
-        # receiver loop variable
+        # receiver loop variable (the tensor written to may be bound to a local first: `dst = target_param.data; dst.copy_(...)`)
+        tgt_names = [t.id if isinstance(t, ast.Name) else None for t in (loop.target.elts if isinstance(loop.target, ast.Tuple) else [loop.target])]
         recv = write.func.value
         while isinstance(recv, ast.Attribute):
             recv = recv.value
+        if isinstance(recv, ast.Name) and recv.id not in tgt_names:
+            recv = _through_temps(tb.cfg, wnode, recv)[0]
+            while isinstance(recv, ast.Attribute):
+                recv = recv.value
         if not isinstance(recv, ast.Name):
             raise AnalysisError(f"{fn.qualname}: in-place write receiver is not a loop variable")
-        tgt_names = [t.id if isinstance(t, ast.Name) else None for t in (loop.target.elts if isinstance(loop.target, ast.Tuple) else [loop.target])]
-        if recv.id not in tgt_names or len(tgt_names) != 2 or len(loop.iter.args) != 2:
+        # the zipped iterables, each looked at through single-definition temporaries (`a = X.values(); b = Y.values(); zip(a, b)` is `zip(X.values(), Y.values())`)
+        zp = _zip_of(tb.cfg, loop)
+        if zp is None or recv.id not in tgt_names or len(tgt_names) != 2 or len(zp[0].args) != 2 or zp[0].keywords:
             raise AnalysisError(f"{fn.qualname}: unexpected soft-update loop shape")
+        zargs = [_through_temps(tb.cfg, zp[1], a)[0] for a in zp[0].args]
+        zipped = ast.Call(func=ast.Name(id="zip", ctx=ast.Load()), args=zargs, keywords=[])
         ti = tgt_names.index(recv.id)
         ei = 1 - ti
-        t_iter, e_iter = loop.iter.args[ti], loop.iter.args[ei]
+        t_iter, e_iter = zargs[ti], zargs[ei]
         # ---- C08.5 formula
         Tt = tb.term(ast.Name(id=tgt_names[ti], ctx=ast.Load()), wnode)
         Et = tb.term(ast.Name(id=tgt_names[ei], ctx=ast.Load()), wnode)
@@ -474,12 +519,12 @@ def _soft_update(ck: Check, repo: Repo, reg: AlgoRegistry) -> int:
                       f"installed TensorDict (`self.{holder}`) against the live view of `{e_attr}`",
                       detail=f"loop iterates eval side as {e_kind}, target side as {t_kind}; `{t_attr}.parameters()` is empty, "
                              "so zip() yields nothing and the target network never moves",
-                      construct=f"{cname}: {short(loop.iter, 140)}")
+                      construct=f"{cname}: {short(zipped, 140)}")
             else:
                 ok = t_kind == "params" and e_kind == "params"
                 ck.ob("C08.6", fn, loop.iter, ok,
                       f"{cname}: the soft update zips parameters() of `{e_attr}` with parameters() of `{t_attr}`",
-                      detail=f"eval side {e_kind}, target side {t_kind}", construct=f"{cname}: {short(loop.iter, 140)} [{e_attr}->{t_attr}]")
+                      detail=f"eval side {e_kind}, target side {t_kind}", construct=f"{cname}: {short(zipped, 140)} [{e_attr}->{t_attr}]")
             # ---- C08.4 runs on every path
             _on_every_path(ck, reg, learn, lcfg, site_fn, site, e_attr, t_attr)
     missing = [p for p in reg.pairs() if p not in covered]
@@ -739,6 +784,112 @@ VARIANTS = [
 ]
 
 
+# the Bellman-target block of DQN.update and the rest of the method (one contiguous anchor: the variants below move the block into private helpers, which
+# have to be added after the end of the method).  NOTE: the names of those helpers must occur only inside the VARIANTS expressions (the front end treats every
+# identifier of the analyser's source outside VARIANTS as an anchor of some rule).
+_UPD_OLD = (
+    "        with torch.no_grad():\n"
+    "            if self.double:  # Double Q-learning\n"
+    "                q_idx = self.actor(next_obs).argmax(dim=1).unsqueeze(1)\n"
+    "                q_target = (\n"
+    "                    self.actor_target(next_obs).gather(dim=1, index=q_idx).detach()\n"
+    "                )\n"
+    "            else:\n"
+    "                q_target = self.actor_target(next_obs).max(axis=1)[0].unsqueeze(1)\n"
+    "\n"
+    "            # target, if terminal then y_j = rewards\n"
+    "            y_j = rewards + self.gamma * q_target * (1 - dones)\n"
+    "\n"
+    "        if actions.ndim == 1:\n"
+    "            actions = actions.unsqueeze(-1)\n"
+    "\n"
+    "        # Compute Q-values for actions taken and loss\n"
+    "        q_eval = self.actor(obs).gather(1, actions.long())\n"
+    "        loss: torch.Tensor = self.criterion(q_eval, y_j)\n"
+    "\n"
+    "        # zero gradients, perform a backward pass, and update the weights\n"
+    "        self.optimizer.zero_grad()\n"
+    "        if self.accelerator is not None:\n"
+    "            self.accelerator.backward(loss)\n"
+    "        else:\n"
+    "            loss.backward()\n"
+    "\n"
+    "        self.optimizer.step()\n"
+    "        return loss.detach()\n"
+)
+_SOFT_OLD = (
+    "        for eval_param, target_param in zip(\n"
+    "            self.param_vals.values(True, True), self.target_params.values(True, True)\n"
+    "        ):\n"
+    "            target_param.data.copy_(\n"
+    "                self.tau * eval_param.data + (1.0 - self.tau) * target_param.data\n"
+    "            )\n"
+)
+# target computed by private helpers the front end cannot inline (`return` inside `with torch.no_grad()`, early return for the plain case, keepdim=True instead
+# of unsqueeze, no redundant detach): followed interprocedurally by the term builder, parameters bound to the arguments of the call
+VARIANTS += (lambda new: [(nm, _D, _UPD_OLD, new.replace(a, b), expect, rule) for nm, a, b, expect, rule in [
+    ("dqn-target-in-helpers-ok", "", "", "silent", None),
+    ("dqn-target-in-helpers-no-mask", "return rewards + self.gamma * next_value * not_done", "return rewards + self.gamma * next_value", "fire", "C08.2"),
+    ("dqn-target-in-helpers-mask-inverted", "not_done = 1 - dones", "not_done = dones", "fire", "C08"),
+    ("dqn-target-in-helpers-current-obs-passed", "self._td_target(rewards, next_obs, dones)", "self._td_target(rewards, obs, dones)", "fire", "C08.1"),
+    ("dqn-target-in-helpers-reward-for-done", "self._td_target(rewards, next_obs, dones)", "self._td_target(rewards, next_obs, rewards)", "fire", "C08"),
+    ("dqn-target-in-helpers-eval-net-value", "return self.actor_target(next_obs).gather(dim=1, index=greedy_idx)", "return self.actor(next_obs).gather(dim=1, index=greedy_idx)", "fire", "C08.1"),
+    ("dqn-target-in-helpers-plain-case-eval-net", "return self.actor_target(next_obs).max(dim=1, keepdim=True)[0]", "return self.actor(next_obs).max(dim=1, keepdim=True)[0]", "fire", "C08.1"),
+    ("dqn-target-in-helpers-value-outside-nograd", "        with torch.no_grad():\n            next_value = self._next_state_value(next_obs)\n",
+     "        next_value = self._next_state_value(next_obs)\n        with torch.no_grad():\n", "fire", "C08.3"),
+    ("dqn-target-in-helpers-tau-for-gamma", "self.gamma * next_value * not_done", "self.tau * next_value * not_done", "fire", "C08.1"),
+]])(
+    "        y_j = self._td_target(rewards, next_obs, dones)\n"
+    "\n"
+    "        if actions.ndim == 1:\n"
+    "            actions = actions.unsqueeze(-1)\n"
+    "\n"
+    "        q_eval = self.actor(obs).gather(1, actions.long())\n"
+    "        loss: torch.Tensor = self.criterion(q_eval, y_j)\n"
+    "\n"
+    "        self.optimizer.zero_grad()\n"
+    "        if self.accelerator is not None:\n"
+    "            self.accelerator.backward(loss)\n"
+    "        else:\n"
+    "            loss.backward()\n"
+    "\n"
+    "        self.optimizer.step()\n"
+    "        return loss.detach()\n"
+    "\n"
+    "    def _next_state_value(self, next_obs):\n"
+    "        if not self.double:\n"
+    "            return self.actor_target(next_obs).max(dim=1, keepdim=True)[0]\n"
+    "\n"
+    "        greedy_idx = self.actor(next_obs).argmax(dim=1, keepdim=True)\n"
+    "        return self.actor_target(next_obs).gather(dim=1, index=greedy_idx)\n"
+    "\n"
+    "    def _td_target(self, rewards, next_obs, dones):\n"
+    "        with torch.no_grad():\n"
+    "            next_value = self._next_state_value(next_obs)\n"
+    "            not_done = 1 - dones\n"
+    "            return rewards + self.gamma * next_value * not_done\n"
+)
+# soft update with the zipped iterables, the mixed tensor and the written tensor bound to locals first
+VARIANTS += [
+    ("dqn-soft-update-through-locals-ok", _D, _SOFT_OLD,
+     "        online_leaves = self.param_vals.values(True, True)\n        target_leaves = self.target_params.values(True, True)\n"
+     "        for eval_param, target_param in zip(online_leaves, target_leaves):\n"
+     "            mixed = self.tau * eval_param.data + (1.0 - self.tau) * target_param.data\n            target_param.data.copy_(mixed)\n", "silent", None),
+    ("dqn-soft-update-zip-and-receiver-through-locals-ok", _D, _SOFT_OLD,
+     "        pairs = zip(self.param_vals.values(True, True), self.target_params.values(True, True))\n"
+     "        for eval_param, target_param in pairs:\n"
+     "            dst = target_param.data\n            dst.copy_(self.tau * eval_param.data + (1.0 - self.tau) * dst)\n", "silent", None),
+    ("dqn-soft-update-through-locals-vacuous", _D, _SOFT_OLD,
+     "        online_leaves = self.actor.parameters()\n        target_leaves = self.actor_target.parameters()\n"
+     "        for eval_param, target_param in zip(online_leaves, target_leaves):\n"
+     "            mixed = self.tau * eval_param.data + (1.0 - self.tau) * target_param.data\n            target_param.data.copy_(mixed)\n", "fire", "C08.6"),
+    ("dqn-soft-update-through-locals-tau-swapped", _D, _SOFT_OLD,
+     "        online_leaves = self.param_vals.values(True, True)\n        target_leaves = self.target_params.values(True, True)\n"
+     "        for eval_param, target_param in zip(online_leaves, target_leaves):\n"
+     "            mixed = (1.0 - self.tau) * eval_param.data + self.tau * target_param.data\n            target_param.data.copy_(mixed)\n", "fire", "C08.5"),
+]
+
+
 # ------------------------------------------------------------------------------------------------ C08.7
 def _batch_root(tb: TermBuilder, p: Poly) -> Set[str]:
     """Names of the function parameters (batches) a term is read from."""
@@ -926,3 +1077,9 @@ def _in_finally(fn: Fn, node) -> bool:
                 if any(x is node.ast for x in ast.walk(s)):
                     return True
     return False
+VARIANTS += [
+    ("matd3-one-counter-for-all-agents", "agilerl/algorithms/matd3.py", "        self.learn_counter[agent_id] += 1\n        if self.learn_counter[agent_id] % self.policy_freq == 0:", "        self.learn_counter += 1\n        if self.learn_counter % self.policy_freq == 0:", "fire", "C08.9"),
+    ("td3-critics-read-actions-after-noise-was-drawn-into-them", "agilerl/algorithms/td3.py", "        # Compute the Q values\n        q_value_1 = self.critic_1(states, actions)\n        q_value_2 = self.critic_2(states, actions)\n\n        with torch.no_grad():\n            next_actions = self.actor_target(next_states)\n            noise = actions.data.normal_(0, policy_noise)",
+     "        with torch.no_grad():\n            next_actions = self.actor_target(next_states)\n            noise = actions.data.normal_(0, policy_noise)\n        q_value_1 = self.critic_1(states, actions)\n        q_value_2 = self.critic_2(states, actions)\n        with torch.no_grad():", "fire", "C08.10"),
+    ("td3-noise-drawn-into-a-copy-ok", "agilerl/algorithms/td3.py", "            noise = actions.data.normal_(0, policy_noise)", "            noise = torch.empty_like(actions).normal_(0, policy_noise)", "silent", None),
+]
